@@ -3,6 +3,7 @@
 // Contracts for package types, read by /verif/bin/gocv. Comment-only.
 package types
 
+//@ pred DAErr(e, s) := isErr(e, s) || msgHas(e, s)
 //@ func SubmitWithHelpers(ctx, da, logger, data, gasPrice, options) (res)
 //@   property C06 C16
 //@   observe sub := call SubmitWithOptions@1
@@ -12,12 +13,17 @@ package types
 //@   ensures [success-iff] res.Code == coreda.StatusSuccess <==> (sub.res1 == nil && (len(sub.res0) > 0 || len(data) == 0))
 //@   ensures [progress] res.Code == coreda.StatusSuccess && len(data) > 0 ==> res.SubmittedCount > 0
 //@   ensures [cancel] sub.res1 != nil && isErr(sub.res1, context.Canceled) ==> res.Code == coreda.StatusContextCanceled
-//@   ensures [timeout] sub.res1 != nil && !isErr(sub.res1, context.Canceled) && isErr(sub.res1, coreda.ErrTxTimedOut) ==> res.Code == coreda.StatusNotIncludedInBlock
-//@   ensures [mempool] sub.res1 != nil && !isErr(sub.res1, context.Canceled) && !isErr(sub.res1, coreda.ErrTxTimedOut)
-//@                        && isErr(sub.res1, coreda.ErrTxAlreadyInMempool) ==> res.Code == coreda.StatusAlreadyInMempool
-//@   ensures [toobig] sub.res1 != nil && !isErr(sub.res1, context.Canceled) && !isErr(sub.res1, coreda.ErrTxTimedOut)
-//@                        && !isErr(sub.res1, coreda.ErrTxAlreadyInMempool) && !isErr(sub.res1, coreda.ErrTxIncorrectAccountSequence)
-//@                        && isErr(sub.res1, coreda.ErrBlobSizeOverLimit) ==> res.Code == coreda.StatusTooBig
+// The classification has to survive the JSON-RPC transport, which preserves of an error only its
+// message (C16): DAErr(e, s) holds when e is s by identity or merely says what s says.
+//@   ensures [timeout] sub.res1 != nil && !isErr(sub.res1, context.Canceled) && DAErr(sub.res1, coreda.ErrTxTimedOut) ==> res.Code == coreda.StatusNotIncludedInBlock
+//@   ensures [mempool] sub.res1 != nil && !isErr(sub.res1, context.Canceled) && !DAErr(sub.res1, coreda.ErrTxTimedOut)
+//@                        && DAErr(sub.res1, coreda.ErrTxAlreadyInMempool) ==> res.Code == coreda.StatusAlreadyInMempool
+//@   ensures [toobig] sub.res1 != nil && !isErr(sub.res1, context.Canceled) && !DAErr(sub.res1, coreda.ErrTxTimedOut)
+//@                        && !DAErr(sub.res1, coreda.ErrTxAlreadyInMempool) && !DAErr(sub.res1, coreda.ErrTxIncorrectAccountSequence)
+//@                        && DAErr(sub.res1, coreda.ErrBlobSizeOverLimit) ==> res.Code == coreda.StatusTooBig
+//@   ensures [unclassified] sub.res1 != nil && !isErr(sub.res1, context.Canceled) && !DAErr(sub.res1, coreda.ErrTxTimedOut) && !DAErr(sub.res1, coreda.ErrTxAlreadyInMempool)
+//@                        && !DAErr(sub.res1, coreda.ErrTxIncorrectAccountSequence) && !DAErr(sub.res1, coreda.ErrBlobSizeOverLimit) && !DAErr(sub.res1, coreda.ErrContextDeadline)
+//@                        ==> res.Code == coreda.StatusError
 //@   ensures [other-error] sub.res1 != nil ==> res.Code != coreda.StatusSuccess
 //@   ensures [blobs] sub.arg2 == data
 
